@@ -110,6 +110,19 @@ def _child_main(sock, i: int, ps: dict, root: str, cfg: dict) -> None:
 
     code = 99
     try:
+        try:
+            import ctypes
+
+            ctypes.CDLL(None).prctl(1, signal.SIGKILL)  # PR_SET_PDEATHSIG: never outlive the worker
+        except Exception:
+            pass
+        try:
+            import resource
+
+            lim = int(os.environ.get("SIMPLAN_CHILD_AS_BYTES", 6 << 30))
+            resource.setrlimit(resource.RLIMIT_AS, (lim, lim))
+        except Exception:
+            pass
         os.chdir(os.path.join(root, "cwd"))
         os.environ["TMPDIR"] = os.path.join(root, "tmp")
         for k in ("TEMP", "TMP", "PLAN_VERBOSE", "PLAN_OUTPUT_DIR"):
